@@ -32,6 +32,9 @@ pub struct Server {
     pub handle: Option<JoinHandle<Result<(), String>>>,
     pub dir: Option<PathBuf>,
     pub returned_at: Arc<std::sync::Mutex<Option<Instant>>>,
+    /// pthread id of the thread that runs listen() (0 until it has started): lets a history send
+    /// that thread a signal while it waits for connections
+    pub tid: Arc<std::sync::atomic::AtomicU64>,
 }
 
 pub struct ServerCfg {
@@ -88,15 +91,18 @@ impl Server {
         let addr = address.to_string();
         let returned_at = Arc::new(std::sync::Mutex::new(None));
         let ra = returned_at.clone();
+        let tid = Arc::new(std::sync::atomic::AtomicU64::new(0));
+        let tid2 = tid.clone();
         let handle = std::thread::Builder::new()
             .name("listen".into())
             .spawn(move || {
+                tid2.store(unsafe { libc::pthread_self() } as u64, Ordering::SeqCst);
                 let r = varlink::listen(svc, &addr, &lc).map_err(|e| format!("{:?}", e.kind()));
                 *ra.lock().unwrap() = Some(Instant::now());
                 r
             })
             .map_err(|e| e.to_string())?;
-        let s = Server { address: address.to_string(), stop, handle: Some(handle), dir, returned_at };
+        let s = Server { address: address.to_string(), stop, handle: Some(handle), dir, returned_at, tid };
         Ok(s)
     }
 
